@@ -19,6 +19,13 @@ Behaviours (see lean/JRV/Model/Transport.lean; <code> is any HTTP status, <k> a 
     sx<code>           status <code> whose body is longer than the announced Content-Length, all in one segment
     sy<code>           the same, the surplus bytes (no line end, not an HTTP status line) are sent late
     sz<code>_<k>       the same, the late surplus is followed by a complete 200 reply carrying token <k>
+    sb<code>_<kind>_<framing>
+                       status <code> with a body of the given KIND - what error pages of front-end servers, proxies and broken
+                       peers really hold (ERROR_BODIES): text own foreign err http | empty huge html latin1 gz (gzip bytes with
+                       `Content-Encoding: gzip`) gzn (gzip bytes without the header) bin (arbitrary bytes) cut (UTF-8 ending
+                       inside a character) u16 (UTF-16 with BOM) - and FRAMING: l Content-Length, keep-alive | n no length
+                       header, the peer closes | c chunked transfer encoding (HTTP chunks of a few hundred bytes), keep-alive |
+                       k Content-Length and `Connection: close`, the peer closes
     q<infos>_<final>_<delta>_<cuts>
                        a reply delivered in pieces.  <infos>: informational responses sent first, one letter each - c/C `100
                        Continue`, p/P `102 Processing`, e/E `103 Early Hints` (no body, no length header; upper case: the
@@ -36,8 +43,10 @@ Behaviours (see lean/JRV/Model/Transport.lean; <code> is any HTTP status, <k> a 
 A timeout of the peer's own bookkeeping (quiesce, accept thread) is an infrastructure failure (core.InfraError), never a
 silent pass.
 """
+import gzip
 import json
 import os
+import random
 import re
 import select
 import socket
@@ -54,6 +63,41 @@ QUIESCE_TIMEOUT = 20.0  # seconds; far above anything a loaded machine needs for
 
 BEH_RE = re.compile(r"^(ok|okc|down|cbr|rst|trunc|empty|nonjson|"
                     r"sl\d+[ofe]?|snl\d+[ofe]?|bl\d+|blz\d+|xn\d+|xl\d+|sx\d+|sy\d+|sz\d+_\d+)$")
+SB_RE = re.compile(r"^sb(\d+)_([a-z0-9]+)_([lnck])$")
+ERROR_BODY_KINDS = ["text", "own", "foreign", "err", "http", "empty", "huge", "html", "latin1", "gz", "gzn", "bin", "cut", "u16"]
+ERROR_FRAMINGS = ["l", "n", "c", "k"]
+HUGE = 40000            # bytes: many reads, yet within the socket buffers (a client that does not read must not block the peer)
+_HTML = u"<html><head><title>503 Service indisponible</title></head><body><h1>Service indisponible</h1>" \
+        u"<p>R\xe9essayez ult\xe9rieurement \u2014 le serveur est surcharg\xe9. \u20ac \U0001F600</p></body></html>"
+
+
+def parse_sb(b):
+    """`sb<code>_<kind>_<framing>` -> (code, kind, framing) or None."""
+    m = SB_RE.match(b)
+    if not m or m.group(2) not in ERROR_BODY_KINDS:
+        return None
+    return int(m.group(1)), m.group(2), m.group(3)
+
+
+def error_body(kind):
+    """The bytes of an error body of the given kind (deterministic)."""
+    if kind == "empty":
+        return b""
+    if kind == "huge":
+        return (b"<p>upstream connect error or disconnect/reset before headers</p>\n" * (HUGE // 68 + 1))[:HUGE]
+    if kind == "html":
+        return _HTML.encode("utf-8")
+    if kind == "latin1":
+        return _HTML.replace(u"\u2014", u"-").replace(u"\u20ac", u"EUR").replace(u"\U0001F600", u"").encode("iso-8859-1")
+    if kind in ("gz", "gzn"):
+        return gzip.compress(b"<html><body>Bad gateway</body></html>", mtime=0)
+    if kind == "bin":
+        return b"\x00\xff\xfe\x80\xbf" + bytes(random.Random(19).randrange(256) for _ in range(300)) + b"\xc3"
+    if kind == "cut":
+        return _HTML.encode("utf-8")[:_HTML.encode("utf-8").index(u"\u20ac".encode("utf-8")) + 2]
+    if kind == "u16":
+        return _HTML.encode("utf-16")
+    return None  # text / own / foreign / err / http: built per request
 Q_RE = re.compile(r"^q([cCpPeE]*)_(ok|s(\d+)([ofeh]?)|b(\d+))_([=+~n-])_(l?h?b?)$")
 INFO = {"c": (100, "Continue"), "p": (102, "Processing"), "e": (103, "Early Hints")}
 PAUSE_POLL = 0.001      # seconds between two looks at the client while the peer pauses
@@ -81,7 +125,7 @@ def parse_q(b):
 
 
 def valid_beh(b):
-    return bool(BEH_RE.match(b)) or parse_q(b) is not None
+    return bool(BEH_RE.match(b)) or parse_q(b) is not None or parse_sb(b) is not None
 
 
 class Peer(object):
@@ -513,12 +557,45 @@ class Peer(object):
             c.sendall(segments[i])
         return not closes
 
+    def _apply_sb(self, c, sb, tok, rid):
+        """A non-200 reply with a body of a given kind in a given framing."""
+        code, kind, framing = sb
+        body = error_body(kind)
+        if body is None:
+            if kind == "http":
+                body = self._reply(200, "OK", self._result(rid, (tok if isinstance(tok, int) else 0) + FOREIGN))
+            else:
+                body = self._status_body({"own": "o", "foreign": "f", "err": "e"}.get(kind, ""), tok, rid, b"error")
+        head = ("HTTP/1.1 %d Err\r\n" % code).encode()
+        head += b"Content-Type: text/html; charset=iso-8859-1\r\n" if kind == "latin1" else b"Content-Type: text/html\r\n"
+        if kind == "gz":
+            head += b"Content-Encoding: gzip\r\n"
+        if framing in ("l", "k"):
+            head += ("Content-Length: %d\r\n" % len(body)).encode()
+        if framing == "k":
+            head += b"Connection: close\r\n"
+        if framing == "c":
+            head += b"Transfer-Encoding: chunked\r\n"
+            parts, i, k = [], 0, 0
+            sizes = [313, 1, 700, 4096]
+            while i < len(body):
+                part = body[i:i + sizes[k % len(sizes)]]
+                parts.append(("%x\r\n" % len(part)).encode() + part + b"\r\n")
+                i += len(part)
+                k += 1
+            body = b"".join(parts) + b"0\r\n\r\n"
+        c.sendall(head + b"\r\n" + body)
+        return framing in ("l", "c")
+
     def _apply(self, c, beh, tok, rid):
         ok_body = self._result(rid, tok)
         try:
             q = parse_q(beh)
             if q is not None:
                 return self._apply_q(c, q, tok, rid)
+            sb = parse_sb(beh)
+            if sb is not None:
+                return self._apply_sb(c, sb, tok, rid)
             if beh == "ok":
                 self._send(c, 200, "OK", ok_body)
                 return True
